@@ -9,8 +9,13 @@ def hval(seed, a, b, width):
     """Deterministic pseudo-random value: pure function of (seed, a, b)."""
     if width <= 0:
         return 0
-    h = hashlib.blake2b(f"{seed}/{a}/{b}".encode(), digest_size=16).digest()
-    return int.from_bytes(h, "big") & ((1 << width) - 1)
+    h = int.from_bytes(hashlib.blake2b(f"{seed}/{a}/{b}".encode(), digest_size=24).digest(), "big")
+    mask = (1 << width) - 1
+    sel, h = h & 31, h >> 5
+    if width >= 4 and sel < 5:
+        # one in six values is a boundary pattern: all zeros, all ones, lowest bit, highest bit, alternating
+        return [0, mask, 1, 1 << (width - 1), 0x5555555555555555555555555555555555555555 & mask][sel]
+    return h & mask
 
 
 class Reg:
